@@ -107,7 +107,9 @@ impl Multi {
         self.eval_in_turn = false;
         // 1. replies for clients that were blocked before this turn: element deliveries first (the server
         //    processes its wake-up queue at the top of the turn), timeouts after the commands.
-        let blocked_ids: Vec<usize> = self.cl.iter().filter(|(_, c)| c.blocked.is_some() && !c.gone).map(|(k, _)| *k).collect();
+        let mut blocked_ids: Vec<usize> = self.cl.iter().filter(|(_, c)| c.blocked.is_some() && !c.gone).map(|(k, _)| *k).collect();
+        // the server serves waiters in the order in which they blocked
+        blocked_ids.sort_by_key(|c| self.cl[c].blocked.as_ref().map(|b| b.order).unwrap_or(0));
         let mut timeouts: Vec<usize> = Vec::new();
         for c in blocked_ids {
             let sim = self.cl[&c].sim;
@@ -118,9 +120,13 @@ impl Multi {
                 }
             }
         }
+        // requests of clients that went away before their reply could be read: executed by the server, verdict-less here
+        let gone_ids: Vec<usize> = self.cl.iter().filter(|(_, c)| c.gone && !c.inflight.is_empty()).map(|(k, _)| *k).collect();
+        for c in gone_ids { self.cl.get_mut(&c).unwrap().inflight.clear(); self.poisoned = true; }
         // 2. commands executed in this turn, in the order the server read the connections
         let mut ready: Vec<(u64, u64, usize)> = Vec::new(); // (recv seq, end_off, client)
         for (c, cl) in self.cl.iter() {
+            if cl.gone { continue; }
             let conn = self.h.sim.clients[cl.sim].conn;
             let log = &g().conns[conn];
             for inf in cl.inflight.iter() {
@@ -167,6 +173,11 @@ impl Multi {
             let empty = matches!(self.model.dbs[b.db].map.get(&key), Some(Entry { val: Val::List(l), .. }) if l.is_empty());
             if empty { self.model.dbs[b.db].map.remove(&key); }
             self.touch(b.db, &[key.clone()]);
+        }
+        // FIFO: nobody who blocked on this key earlier (and is still waiting, alive) may be passed over
+        let earlier: Vec<usize> = self.cl.iter().filter(|(d, cl)| **d != c && !cl.gone && cl.blocked.as_ref().map_or(false, |x| x.db == b.db && x.keys.contains(&key) && x.order < b.order)).map(|(d, _)| *d).collect();
+        if !earlier.is_empty() && ok_key {
+            self.h.violate(format!("{}/blocking/fifo", self.prop), format!("client {} (blocked as #{}) was served {} from {} while client(s) {:?} blocked on that key earlier and are still waiting", c, b.order, resp::escape(&elem), resp::escape(&key), earlier));
         }
         self.served.push((c, key.clone(), elem.clone(), self.turn_no));
         self.history.push(Done { c, args: b.args.clone(), reply: Some(rep), tag: 0, now, blocked: true });
